@@ -192,7 +192,21 @@ func CleanPath(p string) bool {
 	return true
 }
 
-// Segments splits a clean path into its non-empty segments; the boolean reports a trailing slash.
+// DecidablePath is weaker than CleanPath: empty segments in the interior of the path are
+// allowed (they are segments like any other: no literal equals them, and whether a variable
+// may bind one is left open). Only what the routers trim differently stays undecidable: no
+// leading slash, several leading slashes, several trailing slashes.
+func DecidablePath(p string) bool {
+	if p == "/" {
+		return true
+	}
+	if !strings.HasPrefix(p, "/") || strings.HasPrefix(p, "//") || strings.HasSuffix(p, "//") {
+		return false
+	}
+	return true
+}
+
+// Segments splits a decidable path into its segments (interior ones may be empty); the boolean reports a trailing slash.
 func Segments(p string) (segs []string, trailing bool) {
 	if p == "/" || p == "" {
 		return nil, false
@@ -268,7 +282,7 @@ func matchSeg(s Seg, seg string, last bool) (Tri, string) {
 // MatchPath decides whether the full template t matches the clean path p and what the
 // variables must be bound to. For unclean paths the result is U with no bindings.
 func MatchPath(t Template, p string) Binding {
-	if !CleanPath(p) {
+	if !DecidablePath(p) {
 		return Binding{Match: U}
 	}
 	segs, trailing := Segments(p)
@@ -316,7 +330,7 @@ func MatchPath(t Template, p string) Binding {
 // MatchPrefix decides whether a WebService root template claims the path, i.e. matches
 // its first len(root) segments. Roots carry Lit, Var and VarRe segments only.
 func MatchPrefix(root Template, p string) Tri {
-	if !CleanPath(p) {
+	if !DecidablePath(p) {
 		return U
 	}
 	segs, _ := Segments(p)
